@@ -5,35 +5,94 @@ Import ListNotations.
 Open Scope Z_scope.
 
 (* the routes attached by buildVirtualServerRoutes are exactly the referenced, existing routes that
-   pass the per-reference check; nothing else; in route order *)
+   pass the per-reference check; nothing else; in route order; each at most once *)
+Lemma vsrs_k_exact rs v : forall routes seen k r,
+  In (k, r) (fst (build_vsrs_k rs v seen routes)) <->
+  exists path route, In (path, route) routes /\ route <> ""%string /\ route_key v route = k /\ ~ In k seen /\
+                     lookup k rs = Some r /\ vsr_ok_for r (v_host v) path = true.
+Proof.
+  induction routes as [|[path route] rest IH]; intros seen k r; cbn [build_vsrs_k].
+  - cbn. split; [tauto|intros (p & q & [] & _)].
+  - destruct (String.eqb route "") eqn:He.
+    { apply String.eqb_eq in He. subst route. rewrite IH. split.
+      - intros (p & q & Hin & H). exists p, q. split; [right; exact Hin|exact H].
+      - intros (p & q & [Heq|Hin] & Hne & H); [inversion Heq; subst; congruence|]. exists p, q. auto 10. }
+    apply String.eqb_neq in He.
+    destruct (existsb (String.eqb (route_key v route)) seen) eqn:Hs.
+    { destruct (build_vsrs_k rs v seen rest) as [l w] eqn:Hb. cbn [fst].
+      specialize (IH seen k r). rewrite Hb in IH. cbn [fst] in IH. rewrite IH. split.
+      - intros (p & q & Hin & H). exists p, q. split; [right; exact Hin|exact H].
+      - intros (p & q & [Heq|Hin] & Hne & Hk & Hns & H).
+        + inversion Heq; subst. exfalso. apply Hns. apply existsb_exists in Hs. destruct Hs as (x & Hx & Hxe).
+          apply String.eqb_eq in Hxe. subst x. exact Hx.
+        + exists p, q. auto 10. }
+    assert (Hnot : ~ In (route_key v route) seen).
+    { intros Hi. assert (existsb (String.eqb (route_key v route)) seen = true).
+      { apply existsb_exists. exists (route_key v route). split; [exact Hi|apply String.eqb_refl]. } congruence. }
+    destruct (lookup (route_key v route) rs) as [r0|] eqn:Hl.
+    + destruct (vsr_ok_for r0 (v_host v) path) eqn:Hok.
+      * destruct (build_vsrs_k rs v (route_key v route :: seen) rest) as [l w] eqn:Hb. cbn [fst].
+        specialize (IH (route_key v route :: seen) k r). rewrite Hb in IH. cbn [fst] in IH. split.
+        -- intros [Heq|Hin].
+           ++ inversion Heq; subst. exists path, route. repeat split; auto. left; reflexivity.
+           ++ apply IH in Hin. destruct Hin as (p & q & Hin & Hne & Hk & Hns & H). exists p, q.
+              split; [right; exact Hin|]. repeat split; try tauto. intros Hi. apply Hns. right. exact Hi.
+        -- intros (p & q & [Heq|Hin] & Hne & Hk & Hns & Hlk & Hv).
+           ++ inversion Heq; subst. left. congruence.
+           ++ destruct (string_dec (route_key v route) k) as [Hkk|Hkk].
+              ** left. subst k. congruence.
+              ** right. apply IH. exists p, q. repeat split; auto. intros [Hi|Hi]; [contradiction|]. apply Hns. exact Hi.
+      * destruct (build_vsrs_k rs v seen rest) as [l w] eqn:Hb. cbn [fst].
+        specialize (IH seen k r). rewrite Hb in IH. cbn [fst] in IH. rewrite IH. split.
+        -- intros (p & q & Hin & H). exists p, q. split; [right; exact Hin|exact H].
+        -- intros (p & q & [Heq|Hin] & Hne & Hk & Hns & Hlk & Hv); [inversion Heq; subst; congruence|]. exists p, q. auto 10.
+    + destruct (build_vsrs_k rs v seen rest) as [l w] eqn:Hb. cbn [fst].
+      specialize (IH seen k r). rewrite Hb in IH. cbn [fst] in IH. rewrite IH. split.
+      * intros (p & q & Hin & H). exists p, q. split; [right; exact Hin|exact H].
+      * intros (p & q & [Heq|Hin] & Hne & Hk & Hns & Hlk & Hv); [inversion Heq; subst; congruence|]. exists p, q. auto 10.
+Qed.
+
 Theorem vsrs_exact rs v : forall routes r,
   In r (fst (build_vsrs rs v routes)) <->
   exists path route, In (path, route) routes /\ route <> ""%string /\
                      lookup (route_key v route) rs = Some r /\ vsr_ok_for r (v_host v) path = true.
 Proof.
-  induction routes as [|[path route] rest IH]; intros r; cbn [build_vsrs].
-  - cbn. split; [tauto|intros (p & q & [] & _)].
-  - destruct (build_vsrs rs v rest) as [l w] eqn:Hb. cbn [fst] in IH.
-    destruct (String.eqb route "") eqn:He.
-    + apply String.eqb_eq in He. subst route. cbn [fst]. rewrite IH. split.
-      * intros (p & q & Hin & H). exists p, q. split; [right; exact Hin|exact H].
-      * intros (p & q & [Heq|Hin] & Hne & H); [inversion Heq; subst; congruence|]. exists p, q. auto.
-    + apply String.eqb_neq in He.
-      destruct (lookup (route_key v route) rs) as [r0|] eqn:Hl.
-      * destruct (vsr_ok_for r0 (v_host v) path) eqn:Hok; cbn [fst].
-        -- split.
-           ++ intros [<-|Hin]; [exists path, route; repeat split; auto; left; reflexivity|].
-              apply IH in Hin. destruct Hin as (p & q & Hin & H). exists p, q. split; [right; exact Hin|exact H].
-           ++ intros (p & q & [Heq|Hin] & Hne & Hlk & Hv).
-              ** inversion Heq; subst. left. congruence.
-              ** right. apply IH. exists p, q. auto.
-        -- rewrite IH. split.
-           ++ intros (p & q & Hin & H). exists p, q. split; [right; exact Hin|exact H].
-           ++ intros (p & q & [Heq|Hin] & Hne & Hlk & Hv); [inversion Heq; subst; congruence|]. exists p, q. auto.
-      * cbn [fst]. rewrite IH. split.
-        -- intros (p & q & Hin & H). exists p, q. split; [right; exact Hin|exact H].
-        -- intros (p & q & [Heq|Hin] & Hne & Hlk & Hv); [inversion Heq; subst; congruence|]. exists p, q. auto.
+  intros routes r. unfold build_vsrs.
+  destruct (build_vsrs_k rs v [] routes) as [l w] eqn:Hb. cbn [fst]. rewrite in_map_iff. split.
+  - intros ([k r'] & Heq & Hin). cbn in Heq. subst r'.
+    pose proof (vsrs_k_exact rs v routes [] k r) as H. rewrite Hb in H. cbn [fst] in H. apply H in Hin.
+    destruct Hin as (p & q & Hin & Hne & Hk & _ & Hlk & Hv). exists p, q. subst k. auto.
+  - intros (p & q & Hin & Hne & Hlk & Hv). exists (route_key v q, r). split; [reflexivity|].
+    pose proof (vsrs_k_exact rs v routes [] (route_key v q) r) as H. rewrite Hb in H. cbn [fst] in H. apply H.
+    exists p, q. repeat split; auto.
 Qed.
+
+(* a VirtualServerRoute is attached at most once, however many routes of the VirtualServer refer to it
+   (and never one of the keys in [seen]) *)
+Lemma vsrs_k_nodup rs v : forall routes seen,
+  NoDup (map fst (fst (build_vsrs_k rs v seen routes))) /\
+  forall k, In k (map fst (fst (build_vsrs_k rs v seen routes))) -> ~ In k seen.
+Proof.
+  induction routes as [|[path route] rest IH]; intros seen; cbn [build_vsrs_k].
+  - cbn. split; [constructor|tauto].
+  - destruct (String.eqb route ""); [apply IH|].
+    destruct (existsb (String.eqb (route_key v route)) seen) eqn:Hs.
+    { specialize (IH seen). destruct (build_vsrs_k rs v seen rest) as [l w]. exact IH. }
+    destruct (lookup (route_key v route) rs) as [r0|].
+    + destruct (vsr_ok_for r0 (v_host v) path).
+      * specialize (IH (route_key v route :: seen)). destruct (build_vsrs_k rs v (route_key v route :: seen) rest) as [l w].
+        cbn [fst map] in *. destruct IH as [Hnd Hns]. split.
+        -- constructor; [|exact Hnd]. intros Hi. apply (Hns _ Hi). left; reflexivity.
+        -- intros k [Hk|Hk].
+           ++ subst k. intros Hi. assert (existsb (String.eqb (route_key v route)) seen = true).
+              { apply existsb_exists. exists (route_key v route). split; [exact Hi|apply String.eqb_refl]. } congruence.
+           ++ intros Hi. apply (Hns _ Hk). right; exact Hi.
+      * specialize (IH seen). destruct (build_vsrs_k rs v seen rest) as [l w]. exact IH.
+    + specialize (IH seen). destruct (build_vsrs_k rs v seen rest) as [l w]. exact IH.
+Qed.
+
+Theorem vsrs_attached_once rs v routes : NoDup (map fst (fst (build_vsrs_k rs v [] routes))).
+Proof. apply vsrs_k_nodup. Qed.
 
 (* what the per-reference check means *)
 Theorem vsr_ok_for_meaning r host path :
